@@ -3,6 +3,8 @@ package nfa
 import (
 	"fmt"
 	"regexp/syntax"
+	"sort"
+	"unicode"
 
 	"github.com/coregx/coregex/internal/conv"
 )
@@ -248,8 +250,9 @@ func (c *Compiler) compileLiteral(re *syntax.Regexp) (start, end StateID, err er
 	var first = InvalidState
 
 	for _, r := range runes {
-		// For case-insensitive matching of ASCII letters, create alternation
-		if foldCase && isASCIILetter(r) {
+		// For case-insensitive matching, create an alternation over the rune's whole
+		// simple case-folding orbit (k, K, KELVIN SIGN; é, É; ...), as regexp does.
+		if foldCase && len(foldOrbit(r)) > 1 {
 			nextState, err := c.compileFoldCaseRune(r, prev, &first)
 			if err != nil {
 				return InvalidState, InvalidState, err
@@ -267,35 +270,44 @@ func (c *Compiler) compileLiteral(re *syntax.Regexp) (start, end StateID, err er
 	return first, prev, nil
 }
 
-// compileFoldCaseRune compiles a case-insensitive ASCII letter
-// by creating alternation between upper and lower case versions
-func (c *Compiler) compileFoldCaseRune(r rune, prev StateID, first *StateID) (StateID, error) {
-	upper := toUpperASCII(r)
-	lower := toLowerASCII(r)
+// foldOrbit returns the simple case-folding orbit of r (unicode.SimpleFold chain),
+// in increasing code point order: ['K' 'k' U+212A], ['É' 'é'], ['1'].
+func foldOrbit(r rune) []rune {
+	orbit := []rune{r}
+	for f := unicode.SimpleFold(r); f != r; f = unicode.SimpleFold(f) {
+		orbit = append(orbit, f)
+	}
+	sort.Slice(orbit, func(i, j int) bool { return orbit[i] < orbit[j] })
+	return orbit
+}
 
-	// Build UTF-8 sequences for both cases
-	upperStart, upperEnd, err := c.compileSingleRune(upper)
-	if err != nil {
-		return InvalidState, err
-	}
-	lowerStart, lowerEnd, err := c.compileSingleRune(lower)
-	if err != nil {
-		return InvalidState, err
-	}
+// compileFoldCaseRune compiles a case-insensitive rune by creating an alternation
+// between the UTF-8 encodings of all members of its case-folding orbit (for an ASCII
+// letter without further folds: upper case, then lower case).
+func (c *Compiler) compileFoldCaseRune(r rune, prev StateID, first *StateID) (StateID, error) {
+	orbit := foldOrbit(r)
 
 	// Create join state
 	nextState := c.builder.AddEpsilon(InvalidState)
 
-	// Connect both paths to join
-	if err := c.builder.Patch(upperEnd, nextState); err != nil {
-		return InvalidState, err
-	}
-	if err := c.builder.Patch(lowerEnd, nextState); err != nil {
-		return InvalidState, err
+	// Build the UTF-8 sequence of every orbit member and connect it to the join state
+	starts := make([]StateID, len(orbit))
+	for i, m := range orbit {
+		mStart, mEnd, err := c.compileSingleRune(m)
+		if err != nil {
+			return InvalidState, err
+		}
+		if err := c.builder.Patch(mEnd, nextState); err != nil {
+			return InvalidState, err
+		}
+		starts[i] = mStart
 	}
 
-	// Create split state
-	split := c.builder.AddSplit(upperStart, lowerStart)
+	// Chain of split states: orbit[0] | (orbit[1] | (... | orbit[n-1]))
+	split := starts[len(starts)-1]
+	for i := len(starts) - 2; i >= 0; i-- {
+		split = c.builder.AddSplit(starts[i], split)
+	}
 
 	if prev == InvalidState {
 		// First character - split becomes the start
